@@ -164,7 +164,8 @@ def gen_history(rng):
     if rng.random() < 0.3:
       base['_decorated'] = rng.choice([1, 2, 3])   # functools.wraps layers between gin and the function
     if r < 0.15:
-      base.update(name='1bad', nameValid=False, _name_arg='1bad', _pyname='late%d' % obj)
+      badname = rng.choice(['1bad', '', 'a..b', 'a-b', '.a', 'a.', ' a', 'a b'])
+      base.update(name=badname, nameValid=False, _name_arg=badname, _pyname='late%d' % obj)
     elif r < 0.22:
       base.update(module='bad module', moduleValid=False, _explicit_module='bad module')
     elif r < 0.3:
@@ -302,6 +303,19 @@ def run_shape(case):
         facts['pickles'] = f'{type(e).__name__}'
     if shape == 'meta':
       facts['meta_ran'] = getattr(c, 'via_meta', False)
+    if shape == 'with_method' and api in ('register', 'external'):
+      # the registered method, reached through the original function object, is the configurable `<class>.meth`
+      try:
+        gin.bind_parameter(f'c13.{name}.meth.k', 5)
+        gin.bind_parameter(f'sc/c13.{name}.meth.k', 6)
+        got = dict(gin.get_bindings(orig.meth))
+        with gin.config_scope('sc'):
+          got_sc = dict(gin.get_bindings(orig.meth))
+        handle = gin.get_configurable(orig.meth)
+        facts['method_via_function_object'] = (got == {'k': 5} and got_sc == {'k': 6} and callable(handle)) or \
+            f'bindings {got} / {got_sc}'
+      except Exception as e:  # pylint: disable=broad-except
+        facts['method_via_function_object'] = f'raised {type(e).__name__}: {e}'[:120]
   else:
     if api == 'configurable' and shape == 'fn':
       facts['name_doc_sig'] = (returned.__name__ == orig.__name__ and returned.__doc__ == orig.__doc__ and
@@ -380,6 +394,7 @@ def oracle(case, impl):
     return f'{tag}: {f["error"]}'
   for k in ('register_returns_original', 'direct_untouched', 'injected', 'isinstance', 'issubclass', 'name_doc_module',
             'class_dict_unchanged', 'pickles', 'meta_ran', 'name_doc_sig', 'equal_but_distinct_rejected',
+            'method_via_function_object',
             'first_still_registered'):
     if k in f and f[k] is not True and f[k] is not None:
       return f'{tag}: {k} = {f[k]}'
